@@ -125,16 +125,39 @@ def job_agree():
     a_px = pyx['cf_orbital_motion2semi_a'](x, M, m, G)
     n_py = run1(py['semi_a2orbital_motion'], x, M, m, facts=facts)
     n_px = pyx['cf_semi_a2orbital_motion'](x, M, m, G)
+    def rp_kepler(md):
+        xv, Mv, mv = float(md.get('x', 2.0e-5)), float(md.get('M', 1.9e27)), float(md.get('m', 8.9e22))
+        out = []
+        for f in ('orbital_motion2semi_a', 'semi_a2orbital_motion'):
+            r = replay.call_real([{'module': 'TidalPy.utilities.conversions.conversions', 'func': f, 'args': [xv, Mv, mv]},
+                                  {'module': 'TidalPy.utilities.conversions.conversions_x', 'func': f, 'args': [xv, Mv, mv]}])
+            if not all(q['ok'] for q in r):
+                return True, 'raised: %r' % [q.get('error') for q in r]
+            out.append((f, r[0]['value'], r[1]['value']))
+        return any(abs(a - b) > 1e-9 * abs(a) for _, a, b in out), 'interpreted vs compiled at (%r, %r, %r): %r' % (xv, Mv, mv, out)
     results.append(discharge(Obligation('compiled Kepler conversions == interpreted (same G)', z3.And(eq_goal(a_py, a_px), eq_goal(n_py, n_px)), facts,
-                                        replay=lambda md: (True, 'Kepler conversions differ between implementations'), key='agree:kepler')))
+                                        replay=rp_kepler, key='agree:kepler')))
     # the constants: G of constants_x.pyx vs scipy.constants.G used by the interpreted code
     r = replay.call_real([{'module': 'scipy.constants', 'func': 'G', 'get_attr': True}])[0]
     g_py = Fr(repr(r['value']))
     g_px = pyx_G()
     results.append(discharge(Obligation('default gravitational constant: constants_x.pyx G == scipy.constants.G used by the interpreted conversions (%s vs %s)' % (g_px, g_py),
                                         z3.RealVal(str(g_py)) == z3.RealVal(str(g_px)), [], with_axioms=False, with_dens=False,
-                                        replay=lambda md: (True, 'G differs: %s vs %s' % (g_px, g_py)), key='agree:G')))
+                                        replay=lambda md: (float(g_px) != float(g_py), 'constants_x.pyx G = %s (read from the source), scipy.constants.G = %s (read from the running interpreter)' % (g_px, g_py)), key='agree:G')))
     # argument validation of both implementations: same accepted domain
+    def rp_validate(label, nm):
+        def rp(md):
+            mod = 'TidalPy.utilities.conversions.conversions' + ('_x' if label == 'compiled' else '')
+            bad = []
+            for Mv, mv, should_accept in ((1.0e27, 1.0e22, True), (1.0e27, 0.0, True), (0.0, 1.0e22, False), (-1.0, 1.0e22, False), (1.0e27, -1.0, False)):
+                r = replay.call1(mod, nm, 2.0e-5, Mv, mv)
+                accepted = bool(r['ok'])
+                if (not accepted) and 'BadValueError' not in str(r.get('type', '')) + str(r.get('error', '')):
+                    bad.append((Mv, mv, 'raised %s' % r.get('error')))
+                elif accepted != should_accept:
+                    bad.append((Mv, mv, 'accepted' if accepted else 'rejected'))
+            return bool(bad), '%s %s: %r' % (label, nm, bad)
+        return rp
     for nm in ('orbital_motion2semi_a', 'semi_a2orbital_motion'):
         for label, f, extra in (('interpreted', py[nm], ()), ('compiled', pyx[nm], (G,))):
             Mv, mv = Q.sym('Mv'), Q.sym('mv')
@@ -146,7 +169,7 @@ def job_agree():
             other = [p for p in paths if p.exc is not None and not isinstance(p.exc, BadValueError)]
             goal = z3.And(z3.Or(*okp) == z3.And(Mv.re > 0, mv.re >= 0), z3.BoolVal(not other))
             results.append(discharge(Obligation('%s %s: accepts exactly host_mass > 0 and target_mass >= 0, raises BadValueError otherwise' % (label, nm), goal, [x.re > 0, G.re > 0],
-                                                with_axioms=False, with_dens=False, replay=lambda md: (True, 'validation domain differs: %r' % md), key='validate:%s:%s' % (label, nm))))
+                                                with_axioms=False, with_dens=False, replay=rp_validate(label, nm), key='validate:%s:%s' % (label, nm))))
             CTX.facts = facts
     results.append(reach_twin('agree', facts))
     return {'results': results, 'encoded': loader.ENCODED, 'axioms': CTX.axiom_notes, 'label': 'agree'}
@@ -236,7 +259,7 @@ def job_orbit():
     except Exception:
         rej = False
     results.append(discharge(Obligation('orbit set_state with two of (frequency, period, semi-major axis) raises TidalPyOrbitError before storing anything', z3.BoolVal(rej), [],
-                                        with_axioms=False, with_dens=False, replay=lambda md: (True, 'over-specified state accepted'), key='orbit:overspecified')))
+                                        with_axioms=False, with_dens=False, replay=lambda md: (not rej, 'OrbitBase.set_state executed from the current source with orbital_frequency and orbital_period both given: raised TidalPyOrbitError = %s' % rej), key='orbit:overspecified')))
     results.append(reach_twin('orbit', facts + [val.re > 0]))
     return {'results': results, 'encoded': loader.ENCODED, 'axioms': CTX.axiom_notes, 'label': 'orbit'}
 
